@@ -196,8 +196,10 @@ func NewWorldOpts(n int, seed []byte, o WorldOpts) *World {
 		kit.Must(c.BindToken(w.TTok[i], TSSOriToken, TSSName, 0), "bind tss token")
 		for _, u := range w.Users {
 			if i == 0 {
-				c.MintERC20(w.Tok[0], u.Addr, big.NewInt(1_000_000))
-				c.MintERC20(w.Unbound, u.Addr, big.NewInt(1_000_000))
+				// 2^200 + 10^6: balances large enough for amounts beyond every machine-integer limit
+				huge := new(big.Int).Add(new(big.Int).Lsh(big.NewInt(1), 200), big.NewInt(1_000_000))
+				c.MintERC20(w.Tok[0], u.Addr, huge)
+				c.MintERC20(w.Unbound, u.Addr, huge)
 			}
 		}
 	}
